@@ -183,7 +183,9 @@ class World(object):
             self._cur.extra.setdefault("randrange_calls", []).append(list(a))
         if self.randrange_script:
             return self.randrange_script.pop(0)
-        return a[0]
+        lo, hi = (0, a[0]) if len(a) == 1 else (a[0], a[1])
+        self._rr_counter = getattr(self, "_rr_counter", 0) + 1
+        return lo + (self._rr_counter * 7919) % max(1, hi - lo)
 
     def register_db(self, path, conn):
         self.dbs.append((path, conn))
